@@ -3,6 +3,7 @@ package main
 // C11 - IP-restricted automation certificates work only from their netblocks.
 
 import (
+	"bytes"
 	"crypto/rand"
 	"crypto/x509"
 	"crypto/x509/pkix"
@@ -367,6 +368,16 @@ func c11Corruptions() []c11Corrupt {
 	mk("300-blocks", []certgen.IpAdressFamily{{AddressFamily: v4, Addresses: many}})
 	mk("two-families", []certgen.IpAdressFamily{{AddressFamily: []byte{0, 2}, Addresses: []asn1.BitString{{Bytes: make([]byte, 16), BitLength: 128}}}, {AddressFamily: v4, Addresses: []asn1.BitString{{Bytes: []byte{172, 16}, BitLength: 16}}}})
 	mk("v6-then-oversized-v4", []certgen.IpAdressFamily{{AddressFamily: []byte{0, 2}, Addresses: nil}, {AddressFamily: v4, Addresses: []asn1.BitString{{Bytes: make([]byte, 5), BitLength: 40}}}})
+	// a well-formed IPv4-unicast family next to families of another or no SAFI, or of
+	// another length: whatever reads the extension for a refresh must honour exactly
+	// what the admission test honours
+	inside := asn1.BitString{Bytes: []byte{10}, BitLength: 8}
+	for _, fam := range [][]byte{{0, 1, 2}, {0, 1}, {0, 1, 128}, {0, 1, 1, 0}, {0, 1, 0}, {1, 1, 1}, {0, 1, 3}} {
+		mk(fmt.Sprintf("unicast-10/8+family-%x-everything", fam), []certgen.IpAdressFamily{{AddressFamily: v4, Addresses: []asn1.BitString{inside}}, {AddressFamily: fam, Addresses: []asn1.BitString{{Bytes: nil, BitLength: 0}}}})
+		mk(fmt.Sprintf("family-%x-192.168/16+unicast-10/8", fam), []certgen.IpAdressFamily{{AddressFamily: fam, Addresses: []asn1.BitString{{Bytes: []byte{192, 168}, BitLength: 16}}}, {AddressFamily: v4, Addresses: []asn1.BitString{inside}}})
+	}
+	mk("unicast-10/8+oversized-block", []certgen.IpAdressFamily{{AddressFamily: v4, Addresses: []asn1.BitString{inside, {Bytes: make([]byte, 5), BitLength: 33}}}})
+	mk("unicast-10/8-twice", []certgen.IpAdressFamily{{AddressFamily: v4, Addresses: []asn1.BitString{inside}}, {AddressFamily: v4, Addresses: []asn1.BitString{{Bytes: []byte{172, 16}, BitLength: 12}}}})
 	// raw garbage / truncations of a valid value
 	good, _ := asn1.Marshal([]certgen.IpAdressFamily{{AddressFamily: v4, Addresses: []asn1.BitString{{Bytes: []byte{172, 16}, BitLength: 16}}}})
 	for i := 0; i < len(good); i++ {
@@ -402,7 +413,8 @@ func c11CorruptCert(w *vfWorld, signer string, ext []byte) *x509.Certificate {
 	return leaf
 }
 
-// the probe peer lies outside every block any corruption legitimately encodes
+// the probe peer lies outside every block the corruptions legitimately encode,
+// except the zero-length prefix (0.0.0.0/0), which the reference decoding reports
 const c11ProbeOutside = "192.0.2.99:4000"
 
 func c11RunCorrupt(w *vfWorld, signer string, cr c11Corrupt, c *vfeng.Ctx) (violated bool, detail string) {
@@ -442,6 +454,9 @@ func c11RunCorrupt(w *vfWorld, signer string, cr c11Corrupt, c *vfeng.Ctx) (viol
 			return true, "widened"
 		}
 	}
+	if v, d := c11RefreshFromInside(w, signer, cr, leaf, c); v {
+		return true, d
+	}
 	// through the handlers (realistic chain)
 	tlsState := w.vfTLSFor(leaf)
 	saved := w.state.Config.Base.AllowedAuthBackendsForCerts
@@ -466,6 +481,19 @@ func c11RunCorrupt(w *vfWorld, signer string, cr c11Corrupt, c *vfeng.Ctx) (viol
 			}
 			return true, fmt.Sprint(resp.Panic)
 		}
+		probeIP, _ := c11PeerIP(c11ProbeOutside)
+		probeCovered := false
+		for _, b := range legit {
+			if b.contains(probeIP) {
+				probeCovered = true // e.g. a zero-length prefix: the well-formed encoding of 0.0.0.0/0
+			}
+		}
+		if resp.Code == 200 && probeCovered {
+			if c != nil {
+				c.Class(fmt.Sprintf("corrupt|%s|admitted-inside-a-well-formed-block", signer), pt)
+			}
+			continue
+		}
 		if resp.Code == 200 {
 			if c != nil {
 				c.Violate("C11|corrupt-extension-admitted|handler", fmt.Sprintf("%s with extension %s from %s answered 200 (certificate methods %v)", path, cr.Name, c11ProbeOutside, backends), pt)
@@ -478,6 +506,96 @@ func c11RunCorrupt(w *vfWorld, signer string, cr c11Corrupt, c *vfeng.Ctx) (viol
 	}
 	}
 	return false, ""
+}
+
+// c11Honoured: the blocks the admission test is specified to honour: IPv4
+// unicast families (00 01 01) with at most 32 bits.
+func c11Honoured(v []byte) []c11Block {
+	var fams []certgen.IpAdressFamily
+	rest, err := asn1.Unmarshal(v, &fams)
+	if err != nil || len(rest) != 0 {
+		return nil
+	}
+	var res []c11Block
+	for _, f := range fams {
+		if !bytes.Equal(f.AddressFamily, []byte{0, 1, 1}) {
+			continue
+		}
+		for _, a := range f.Addresses {
+			if a.BitLength > 32 {
+				continue
+			}
+			var b [4]byte
+			copy(b[:], a.Bytes)
+			res = append(res, c11Block{binary.BigEndian.Uint32(b[:]), a.BitLength})
+		}
+	}
+	return res
+}
+
+// c11RefreshFromInside: a certificate with an odd extension that IS admitted from
+// inside one of its honoured blocks asks for a refresh: the answer is a refusal or
+// a certificate whose blocks all lie inside the honoured ones (no widening).
+func c11RefreshFromInside(w *vfWorld, signer string, cr c11Corrupt, leaf *x509.Certificate, c *vfeng.Ctx) (violated bool, detail string) {
+	hon := c11Honoured(cr.Value)
+	if len(hon) == 0 {
+		return false, ""
+	}
+	b := hon[0]
+	ip := b.Base&b.mask() | (0x00010203 &^ b.mask())
+	peer := fmt.Sprintf("%d.%d.%d.%d:4000", byte(ip>>24), byte(ip>>16), byte(ip>>8), byte(ip))
+	pt := c11Point{Level: "corrupt-refresh", Extra: signer + ":" + cr.Name, Peer: peer}
+	saved := w.state.Config.Base.AllowedAuthBackendsForCerts
+	defer func() { w.state.Config.Base.AllowedAuthBackendsForCerts = saved }()
+	w.state.Config.Base.AllowedAuthBackendsForCerts = []string{"IPCertificate"}
+	req := vfReq{Method: "POST", Path: refreshRoleRequestingCertPath, Form: url.Values{"pubkey": {c11PubB64()}}, TLS: w.vfTLSFor(leaf), Remote: peer}
+	resp := w.Do(req.Build())
+	if c != nil {
+		c.Eval(1)
+	}
+	if resp.Code != 200 {
+		if c != nil {
+			c.Class(fmt.Sprintf("corrupt-refresh|%s|refused-%d", signer, resp.Code), pt)
+		}
+		return false, ""
+	}
+	nl, err := vfParseCertPEM(resp.Body)
+	if err != nil {
+		return false, ""
+	}
+	var ext []byte
+	for _, e := range nl.Extensions {
+		if e.Id.Equal(asn1.ObjectIdentifier{1, 3, 6, 1, 5, 5, 7, 1, 7}) {
+			ext = e.Value
+		}
+	}
+	for _, nb := range c11RefDecode(ext) {
+		covered := false
+		for _, h := range hon {
+			if h.Bits <= nb.Bits && h.contains(nb.Base) {
+				covered = true
+			}
+		}
+		if !covered {
+			what := fmt.Sprintf("certificate (%s) with extension %s (%x) honoured for %v only was refreshed from %s into one carrying %s", signer, cr.Name, cr.Value, c11Cidrs(hon), peer, nb.cidr())
+			if c != nil {
+				c.Violate("C11|refresh-widens|refreshRoleRequestingCertGenHandler|odd-extension", what, pt)
+			}
+			return true, what
+		}
+	}
+	if c != nil {
+		c.Class(fmt.Sprintf("corrupt-refresh|%s|refreshed-within", signer), pt)
+	}
+	return false, ""
+}
+
+func c11Cidrs(bs []c11Block) []string {
+	var r []string
+	for _, b := range bs {
+		r = append(r, b.cidr())
+	}
+	return r
 }
 
 // c11RefDecode: independent, total decoding of the well-formed IPv4 blocks
@@ -509,7 +627,7 @@ func init() {
 	vfRegister(&vfeng.Check{
 		ID:    "C11",
 		Level: "model_checking",
-		Rule:  "exhaustive product prefix length 0..32 x 7 base addresses x boundary peers (network, broadcast, +-1, middle, single-bit flips) x peer forms (v4, v4-mapped v6, v6 incl. addresses whose low 32 bits spell an inside address, zone, no port, text) plus multi-block lists, at library level (GenIPRestrictedX509Cert -> Verify/Extract) and through the real mint / refresh / certgen handlers with realistic verified chains; plus structurally corrupted extensions (bit lengths 0..48, wrong family, 300 blocks, every truncation and byte flip) signed by a trusted CA, through the handlers under three certificate-method configurations; oracle: uint32 arithmetic",
+		Rule:  "exhaustive product prefix length 0..32 x 7 base addresses x boundary peers (network, broadcast, +-1, middle, single-bit flips) x peer forms (v4, v4-mapped v6, v6 incl. addresses whose low 32 bits spell an inside address, zone, no port, text) plus multi-block lists, at library level (GenIPRestrictedX509Cert -> Verify/Extract) and through the real mint / refresh / certgen handlers with realistic verified chains; plus structurally corrupted extensions (bit lengths 0..48, wrong family, an IPv4-unicast family next to families of another / no SAFI or another length, 300 blocks, every truncation and byte flip) signed by a trusted CA, probed from outside and - where a block is honoured - refreshed from inside it (the new certificate stays within the honoured blocks), through the handlers under three certificate-method configurations; oracle: uint32 arithmetic",
 		Assumptions: []string{"IPv4-mapped IPv6 peers denote the same IPv4 address", "a peer string without a port is not a TCP peer address and must be refused"},
 		Shards: func(tier string) int { return 12 },
 		Run: func(c *vfeng.Ctx) {
@@ -578,7 +696,7 @@ func init() {
 					peers = nil
 				}
 				return c11Lib(w, c11ParseBlocks(p.Blocks), peers, nil, false)
-			case "corrupt":
+			case "corrupt", "corrupt-refresh":
 				parts := strings.SplitN(p.Extra, ":", 2)
 				for _, cr := range c11Corruptions() {
 					if cr.Name == parts[1] {
